@@ -318,6 +318,35 @@ PROPS = {
         "assumptions": A_VERUS + A_RING, "trusted": T_VERUS + T_RING,
         "not_covered": ["setup, commit linearity, ruffini, pairing algebra"],
     },
+    "C16": {
+        "r": [("serial", None)],
+        "claim": "framing and field order of every encoder/decoder pair, on the real functions: (a) fixed-size formats (Proof, ProofEvaluations, "
+                 "arithmetic::VerifierKey, VerifierKey): to_bytes writes the fields in FORMAT order, from_bytes reads the same number of items of "
+                 "the same types in the same order and stores read k in the field write k came from (LEMMA round_trip_positions); "
+                 "(b) Verifier / Prover containers: to_bytes writes a 48-byte header of six u64 (the four section lengths, size, constraints) "
+                 "followed by the sections; try_from_bytes reads header field k where it was written, checks every length with checked "
+                 "arithmetic before slicing, slices each section at the prefix sums of the announced lengths and hands it to the decoder "
+                 "of the type that was encoded (LEMMA framing); (c) ProverKey stream format: serialization_size == the number of bytes "
+                 "to_var_bytes writes (each polynomial with its own length -- the obligation that exposed the repaired truncation defect), "
+                 "to_var_bytes writes n, eval_size and 15 x (len, polynomial, evaluations) + 2 evaluations in FORMAT order, from_slice's two "
+                 "local closures (each under its own contract) consume exactly one item and advance the cursor past it, from_slice "
+                 "reads the items in FORMAT order, bounds every polynomial by n, pins every evaluation vector to the 8n domain, re-validates "
+                 "the two derived vectors and fills every field from the item its encoder produced (LEMMA pk_framing: size / stream / fields).",
+        "technique": "contract-based deductive verification: ring/trace contract checker over the real encoder/decoder function bodies (format contracts + framing lemmas)",
+        "level_note": "Decides the container layer (where each byte range goes). NOT decided: the leaf codecs of the dependencies "
+                      "(BlsScalar / G1Affine / G2 canonical decoding => proof canonicity rests on them), Polynomial / Evaluations / "
+                      "CommitKey / OpeningKey / PublicParameters var-bytes bodies, equality of the caches rebuilt by Prover::new / "
+                      "Verifier::new (they are functions of the decoded parts only: the units show the decoder passes the parts to the "
+                      "same constructor), and 'same proof from the same randomness'.",
+        "design_ref": "DESIGN.md §4 C16, §9",
+        "assumptions": A_RING + ["dusk-bytes from_reader consumes T::SIZE bytes from the front and fails otherwise",
+                                 "64-bit target: usize <-> u64 conversions are lossless",
+                                 "section sizes in LEMMA pk_framing: |Polynomial::to_var_bytes(p)| = 32*len(p) for normalised p; all 17 Evaluations of a "
+                                 "ProverKey have the same length (8n domain)"],
+        "trusted": T_RING,
+        "not_covered": ["leaf codecs (scalars, points), Polynomial/Evaluations/CommitKey/OpeningKey/PublicParameters byte bodies",
+                        "behavioural equality of decoded prover/verifier beyond the parts handed to the constructors"],
+    },
     "C15": {
         "v_units": ["capacity.py", "compress.py"],
         "claim": "(a) the two routes accept exactly the same capacities: Compiler::max_constraints(pp) == pow2_floor(max_degree - 6) - 6 "
